@@ -180,6 +180,9 @@ func (v *FetchScopeVariables) Get(s context.Scope, name string) (value.Value, er
 
 	case BERESP_RESPONSE:
 		return v.ctx.BackendResponseResponse, nil
+	// write-only in VCL; the set statement reads the current value to know the target type
+	case BERESP_SAINTMODE:
+		return v.ctx.BackendResponseSaintMode, nil
 	case BERESP_STALE_IF_ERROR:
 		return v.ctx.BackendResponseStaleIfError, nil
 	case BERESP_STALE_WHILE_REVALIDATE:
